@@ -526,26 +526,11 @@ func (g *Graph) factsLattice() Lattice[Facts] {
 				n.assume(st.Node.(ast.Expr), st.Val)
 				g.P.applyCondPost(info, &n, st.Node.(ast.Expr), st.Val)
 				n.applyPending(st.Node.(ast.Expr), st.Val)
-				// a boolean local that names a condition (ok := a && b; if !ok {...}): the named condition is decided too
+				// boolean locals that name a condition (ok := a && b; if !ok || other {...}): the named conditions are
+				// decided too (the condition is assumed once more with such locals replaced by their definitions)
 				if g.Fi != nil {
-					ce, val := ast.Unparen(st.Node.(ast.Expr)), st.Val
-					for {
-						if u, isU := ce.(*ast.UnaryExpr); isU && u.Op == token.NOT {
-							ce, val = ast.Unparen(u.X), !val
-							continue
-						}
-						break
-					}
-					if id, isId := ce.(*ast.Ident); isId {
-						if obj, isVar := info.Uses[id].(*types.Var); isVar && !obj.IsField() && obj.Parent() != nil && obj.Parent() != g.Fi.Pkg.Types.Scope() {
-							if b, isB := obj.Type().Underlying().(*types.Basic); isB && b.Kind() == types.Bool && singleAssigned(info, g.Fi.Decl.Body, obj) {
-								if d := localDef(info, g.Fi, id); d != nil {
-									if _, isCall := ast.Unparen(d).(*ast.CallExpr); !isCall {
-										n.assume(d, val)
-									}
-								}
-							}
-						}
+					if ex, changed := expandBoolLocals(g, st.Node.(ast.Expr), 0); changed {
+						n.assume(ex, st.Val)
 					}
 				}
 				// `_, ok := m[k]` ... `if ok` / `if !ok`: also record the membership atom "m[k]"
@@ -1079,4 +1064,64 @@ func (f *Facts) applyPending(cond ast.Expr, val bool) {
 			}
 		}
 	}
+}
+
+// expandBoolLocals replaces, inside a condition, every boolean local that is assigned exactly once from an
+// expression that is not a plain call by that expression (recursively, three levels).
+func expandBoolLocals(g *Graph, e ast.Expr, depth int) (ast.Expr, bool) {
+	info := g.Info
+	switch x := e.(type) {
+	case *ast.ParenExpr:
+		in, ch := expandBoolLocals(g, x.X, depth)
+		if ch {
+			return &ast.ParenExpr{X: in}, true
+		}
+		return e, false
+	case *ast.UnaryExpr:
+		if x.Op == token.NOT {
+			in, ch := expandBoolLocals(g, x.X, depth)
+			if ch {
+				return &ast.UnaryExpr{Op: token.NOT, X: in}, true
+			}
+		}
+		return e, false
+	case *ast.BinaryExpr:
+		if x.Op == token.LAND || x.Op == token.LOR {
+			l, c1 := expandBoolLocals(g, x.X, depth)
+			r, c2 := expandBoolLocals(g, x.Y, depth)
+			if c1 || c2 {
+				return &ast.BinaryExpr{X: l, Op: x.Op, Y: r}, true
+			}
+		}
+		return e, false
+	case *ast.Ident:
+		if depth > 3 {
+			return e, false
+		}
+		obj, isVar := info.Uses[x].(*types.Var)
+		if !isVar || obj.IsField() || obj.Parent() == nil || obj.Parent() == g.Fi.Pkg.Types.Scope() {
+			return e, false
+		}
+		if b, isB := obj.Type().Underlying().(*types.Basic); !isB || b.Kind() != types.Bool {
+			return e, false
+		}
+		// the defining function may be a helper expanded into this graph
+		owner := g.Fi
+		if g.inl != nil {
+			owner = g.unitOf(x)
+		}
+		if !singleAssigned(info, owner.Decl.Body, obj) {
+			return e, false
+		}
+		d := localDef(info, owner, x)
+		if d == nil {
+			return e, false
+		}
+		if _, isCall := ast.Unparen(d).(*ast.CallExpr); isCall {
+			return e, false
+		}
+		in, _ := expandBoolLocals(g, d, depth+1)
+		return &ast.ParenExpr{X: in}, true
+	}
+	return e, false
 }
